@@ -75,7 +75,7 @@ func spkProp(id string) propDef {
 }
 
 func init() {
-	for _, id := range []string{"C04", "C05", "C09", "C10", "C12"} {
+	for _, id := range []string{"C04", "C05", "C09", "C10", "C12", "C18"} {
 		props = append(props, spkProp(id))
 	}
 }
